@@ -140,3 +140,14 @@ Example C16_ex_padded : VarintRep 1 [x81; x80; x00] /\ load_varint [x81; x80; x0
 Proof. split; [|vm_compute; reflexivity]. repeat split; cbn; lia. Qed.
 Example C16_ex_fixed : pack_int Fmti (-2) = Ok [xfe; xff; xff; xff].
 Proof. vm_compute. reflexivity. Qed.
+
+(* ---- float clause: refuted for -0.0 in a singular field (known finding K14); everywhere else the float
+        encodings are compared bit for bit with struct and the reference by the correspondence ---- *)
+From BP Require Import Model.Float Model.Object Model.Encode Model.WellFormed Proofs.C16Extra.
+Theorem C16_neg_zero_skipped_refuted :
+  exists sc o b,
+    wf_schema sc = true /\ in_range sc o = true /\ oraw o = [PFloat b] /\ b <> 0 /\
+    pack_value TDouble (PFloat b) = Ok [x00; x00; x00; x00; x00; x00; x00; x80] /\
+    enc_obj sc o = Ok [].
+Proof. exact neg_zero_skipped. Qed.
+Print Assumptions C16_neg_zero_skipped_refuted.
